@@ -77,10 +77,15 @@ class _ExpressionTokenizer:
             return ("NUMBER", int(self.text[start : self.pos]))
 
         # Identifier (dots allowed for names like 'decoder_input_ids.45_dim_1')
-        if char.isalpha() or char == "_":
+        # (every character str.isidentifier() accepts must be accepted here too, e.g. combining
+        # marks and letter numbers: the isidentifier() fast path of parse_symbolic_expression
+        # creates symbols with such names, and SymPy prints them back)
+        if char.isalpha() or char == "_" or char.isidentifier():
             start = self.pos
             while self.pos < self.length and (
-                self.text[self.pos].isalnum() or self.text[self.pos] in "_."
+                self.text[self.pos].isalnum()
+                or self.text[self.pos] in "_."
+                or ("_" + self.text[self.pos]).isidentifier()
             ):
                 self.pos += 1
             return ("IDENT", self.text[start : self.pos])
